@@ -107,9 +107,16 @@ class Compiler:
                                 # remember the state and the address of this statement
                                 insn_state, insn_addr = state, addr
                                 def fn():
-                                    old_addr_value = wait(insn_addr)
-                                    new_addr_value = get_as_int(insn_state, "link address", insn, insn.value, bitness=16, unsigned=True)
-                                    length = new_addr_value - old_addr_value
+                                    try:
+                                        old_addr_value = wait(insn_addr)
+                                        new_addr_value = get_as_int(insn_state, "link address", insn, insn.value, bitness=16, unsigned=True)
+                                        length = new_addr_value - old_addr_value
+                                    except DeferredCycle:
+                                        # The link base itself is being solved and waits for the size of this gap
+                                        # ('.link K + end - start' with the skip between the labels). The gap is a
+                                        # difference of two addresses, so the base cancels out of it.
+                                        length = wait(insn.value.resolve(insn_state) - insn_addr)
+                                        old_addr_value, new_addr_value = "here", f"{-length} bytes back"
                                     if length < 0:
                                         reports.error(
                                             "value-out-of-bounds",
